@@ -546,6 +546,24 @@ func TestVerif_C18(t *testing.T) {
 		}
 		c.Case(myIdx, func() interface{} { return k.String() }, func() { runC18(c, scratch, myIdx, k, 0) })
 	}
+	// frames larger than the socket reader's buffer (4096 bytes), sent as one byte stream whose
+	// segments ignore frame boundaries: every segment mode, a few frames, every time
+	for _, sz := range []int{4097, 5000, 39040} {
+		for _, nfr := range []int{2, 3, 10} {
+			for mode := 4; mode <= 6; mode++ {
+				myIdx := idx
+				idx++
+				if !c.Mine(myIdx) {
+					continue
+				}
+				k := c18Case{Size: sz, Count: nfr, Chunk: mode, CutMid: myIdx%2 == 1}
+				c.Case(myIdx, func() interface{} { return k.String() }, func() {
+					runC18(c, scratch, myIdx, k, 0)
+					c.Count("unaligned_streams_of_frames_above_the_reader_buffer", 1)
+				})
+			}
+		}
+	}
 	// reconnect while the previous connection's writer is still lagging
 	no := c.N(6, 60)
 	for s := int64(0); s < no; s++ {
